@@ -27,6 +27,12 @@ def sh(n):
     return show(n).replace(" ", "")
 
 
+def _is_const_ptr(f, a):
+    t = f.unit.types.get(a.ty) or {}
+    pt = f.unit.types.get(t.get("pointee", "")) or {}
+    return t.get("kind") == "ptr" and (bool(pt.get("const")) or t.get("pointee", "").startswith("const "))
+
+
 def pblk_writes(f):
     """Elements of f that write stream->pblk (stores, inc/dec, or calls given a pointer into it)."""
     out = []
@@ -69,6 +75,12 @@ def l1_l3(prog, rep):
                     src = norm(e.arg(1))
                     encs = [c for c in f.calls("be64enc") if norm(c.arg(0)) == src]
                     ok = len(encs) == 1 and norm(encs[0].arg(1))[0] == "v"
+                    # nothing else writes the encoded counter, and it is re-encoded in full for every block:
+                    # the encoding sits inside the block loop and dominates the load that builds the cipher input
+                    others = [c for c in f.calls() if c not in encs and c is not e and any(a is not None and root_var(norm(a)) == root_var(src) and not _is_const_ptr(f, a) for a in c.args)]
+                    st_ = [x for x in f.all_elems() if (x.is_assign or x.is_incdec) and root_var(norm(x.kid(0))) == root_var(src)]
+                    loads = [c for c in f.calls("load_si64") if norm(c.arg(0)) == src]
+                    ok = ok and not others and not st_ and bool(loads) and encs[0].block.id in f.reach_from(encs[0].block.id) and all(f.dominates(encs[0], l) for l in loads)
                     if ok:
                         ctr = norm(encs[0].arg(1))
                         init = [x for x in f.all_elems() if x.is_assign and x.op == "=" and norm(x.kid(0)) == ctr]
